@@ -287,6 +287,23 @@ func srvFlushCorpus() []*CaseSpec {
 		b.evs = append(b.evs, SEv{Kind: "get", Get: getAll(), GetFail: -1})
 		out = append(out, srvCase(fmt.Sprintf("srv.flushget/corpus/nocheck-unknown-group-instance/%d", variant), cfg, b.evs))
 	}
+	// the primary announces a lower id than it had: the highest id the server has learnt stays,
+	// a Flush whose id lies in the gap is refused and changes nothing, one with the highest id passes
+	{
+		cfg2 := &SrvGenCfg{Srv: SrvCfg{Fwd: true, VRFs: []string{"VRF1"}, Default: "DEFAULT"}, Pools: DefaultPools()}
+		b := &cutBuilder{next: 1}
+		c := b.connect()
+		b.params(c, false)
+		b.elec = 9
+		b.announce(c) // {7, 10}
+		b.ops(c, b.chain("DEFAULT", "10.0.0.0/8"))
+		b.evs = append(b.evs, SEv{Kind: "msg", C: c, MsgKind: "elec", Req: &spb.ModifyRequest{ElectionId: &spb.Uint128{High: 7, Low: 5}}})
+		b.evs = append(b.evs, SEv{Kind: "flush", Flush: &spb.FlushRequest{NetworkInstance: &spb.FlushRequest_All{All: &spb.Empty{}}, Election: &spb.FlushRequest_Id{Id: &spb.Uint128{High: 7, Low: 7}}}})
+		b.evs = append(b.evs, SEv{Kind: "get", Get: getAll(), GetFail: -1})
+		b.evs = append(b.evs, SEv{Kind: "flush", Flush: &spb.FlushRequest{NetworkInstance: &spb.FlushRequest_All{All: &spb.Empty{}}, Election: &spb.FlushRequest_Id{Id: &spb.Uint128{High: 7, Low: 10}}}})
+		b.evs = append(b.evs, SEv{Kind: "get", Get: getAll(), GetFail: -1})
+		out = append(out, srvCase("srv.flushget/corpus/primary-lowers-its-id-flush-in-the-gap", cfg2, b.evs))
+	}
 	return out
 }
 
